@@ -754,20 +754,26 @@ structure IEdit where
   comment : Option Str
 deriving Repr, Inhabited
 
-/-- `apply_edits` for a batch of indexed edits: reversed, then descending by index (stable: edits at one
-offset are applied last-first), overlap filter -/
+/-- one round of the indexed loop of `apply_edits`: overlap filter against the ranges of the edits applied
+so far, then `_apply_single_edit_indexed` -/
+def indexedStep (acc : Sess × Nat × Nat × List (Nat × Nat)) (e : IEdit) : Sess × Nat × Nat × List (Nat × Nat) :=
+  let (s, ap, sk, occ) := acc
+  let a := e.index
+  let b := e.index + e.target.length
+  if occ.any (fun (os, oe) => a < oe && b > os) then (s, ap, sk + 1, occ)
+  else
+    let (s', ok) := applyIndexed s false e.index e.target.length e.new e.comment none
+    if ok then (s', ap + 1, sk, occ ++ [(a, b)]) else (s', ap, sk + 1, occ)
+
+/-- the indexed phase of `apply_edits`: reversed, then descending by index (stable: edits at one offset are
+applied last-first); result: session, applied, skipped, occupied ranges -/
+def applyEditsIndexedFull (s : Sess) (edits : List IEdit) : Sess × Nat × Nat × List (Nat × Nat) :=
+  (edits.reverse.mergeSort fun a b => a.index ≥ b.index).foldl indexedStep (s, 0, 0, [])
+
+/-- `apply_edits` for a batch of indexed edits -/
 def applyEditsIndexed (s : Sess) (edits : List IEdit) : Sess × Nat × Nat :=
-  let sorted := (edits.reverse.mergeSort fun a b => a.index ≥ b.index)
-  let step (acc : Sess × Nat × Nat × List (Nat × Nat)) (e : IEdit) : Sess × Nat × Nat × List (Nat × Nat) :=
-    let (s, ap, sk, occ) := acc
-    let a := e.index
-    let b := e.index + e.target.length
-    if occ.any (fun (os, oe) => a < oe && b > os) then (s, ap, sk + 1, occ)
-    else
-      let (s', ok) := applyIndexed s false e.index e.target.length e.new e.comment none
-      if ok then (s', ap + 1, sk, occ ++ [(a, b)]) else (s', ap, sk + 1, occ)
-  let (s', ap, sk, _) := sorted.foldl step (s, 0, 0, [])
-  (s', ap, sk)
+  let r := applyEditsIndexedFull s edits
+  (r.1, r.2.1, r.2.2.1)
 
 end Adeu.Doc
 
